@@ -1,5 +1,5 @@
 (* C08 — vector streams end only when the vector is dropped, and on its final state. *)
-From EB Require Import OVec OVecRun OVecFacts OVecExtra.
+From EB Require Import OVecStepwise OVecDrain OVecDrainFacts OVec OVecRun OVecFacts OVecExtra.
 
 (* the stream reports its end only after the vector is gone - and then the replica built from the
    snapshot and everything delivered equals the vector's final contents, for every capacity and
@@ -70,3 +70,14 @@ Example C08_nonvacuous :
                            OMut (MPushBack 3); OMut (MPushBack 4); ODropVec; OPoll 0; OPoll 0] in
   map (@gh_replica nat) (g_gh g) = [[0; 1; 2; 3; 4]] /\ alive (g_o g) = false.
 Proof. split; reflexivity. Qed.
+
+(* ---- the vector is dropped between two receive attempts of one poll (OVecDrain.v) ---- *)
+Theorem C08_racing_poll_ends_only_dropped_and_on_final {A} (g : gst A) k inj g' u s gh' :
+  step_inv g -> forallb (env_ops k) inj = true ->
+  nth_error (subs (g_o g)) k = Some (Some s) ->
+  c_gpoll g k inj = Ok (g', Ready None, u) -> nth_error (g_gh g') k = Some gh' ->
+  alive (g_o g') = false /\ gh_replica gh' = values (g_o g').
+Proof.
+  intros H1 H2 H3 H4 H5. exact (proj2 (c_poll_meaning g k inj g' (Ready None) u s gh' H1 H2 H3 H4 H5)).
+Qed.
+Print Assumptions C08_racing_poll_ends_only_dropped_and_on_final.
